@@ -71,6 +71,8 @@ def extract_general_json(data: GeneralJSONSerialization) -> GeneralJSONEncryptio
     obj.bytes_segments = bytes_segments
     for item in data["recipients"]:
         recipient: Recipient[Key] = Recipient(obj, item.get("header"))
+        # an absent "encrypted_key" member is an empty JWE Encrypted Key
+        recipient.encrypted_key = b""
         if "encrypted_key" in item:
             recipient.encrypted_key = urlsafe_b64decode(to_bytes(item["encrypted_key"]))
         obj.recipients.append(recipient)
@@ -86,6 +88,7 @@ def extract_flattened_json(data: FlattenedJSONSerialization) -> FlattenedJSONEnc
     obj.bytes_segments = bytes_segments
 
     recipient: Recipient[Key] = Recipient(obj, data.get("header"))
+    recipient.encrypted_key = b""
     if "encrypted_key" in data:
         recipient.encrypted_key = urlsafe_b64decode(to_bytes(data["encrypted_key"]))
     obj.recipients.append(recipient)
